@@ -79,6 +79,13 @@ def gen(r, tier, sub):
                     ops.append("ret %d" % r.below(nt))
             yield spec + " ; " + " ; ".join(ops)
     else:
+        # directed: a task is lost a+b >= 5 times in all, but never 5 times in a row (it succeeds in between and its
+        # output is lost again later): the evaluation must succeed
+        for a in range(1, 5):
+            for b in range(max(1, 5 - a), 5):
+                k = a + 2          # the Run call at which the consumer first runs
+                yield "N 2 D 1:0 ; script 0=%so%so 1=lo ; lose %d=0 ; roots 1" % ("l" * a, "l" * b, k)
+                yield "N 3 D 1:0 2:1 ; script 0=%so%so 1=lo 2=o ; lose %d=0 ; roots 2" % ("l" * a, "l" * b, k)
         n = 600 if tier == "quick" else 12000
         for i in range(n):
             spec, nt, roots = gen_graph(r)
